@@ -21,6 +21,8 @@ func init() {
 			"For each site the path argument's provenance is sliced backwards (through locals, string/path helpers, parameters to their callers, module helper returns). Decided: (D1) every site is classified; (D2) a path that derives from one of the three durable locations (configuration file, lease database, filter-list files) reaches only the atomic primitives, apart from a frozen table of whole-file removals; each durable kind keeps at least one atomic writer; " +
 			"(D3) on unix builds the aghrenameio wrappers resolve to renameio.NewPendingFile / CloseAtomicallyReplace / Cleanup; (D4) every function that obtains a pending file hands it, on every path to return, to a finaliser that always calls CloseReplace or Cleanup. " +
 			"(D5) the list parser returns exactly the scanner's read error after the scan, so a transfer that broke off cannot reach the replace step as a success. " +
+			"(D5, cont.) a pending file receives the output of at most one parse: neither the Parse call that writes into it nor the calls leading to it lie on a cycle (no retry into the same pending file). " +
+			"(D6) the bytes that replace the configuration file are encoded into a buffer made by that very save. " +
 			"Not decided: crash semantics of rename/fsync on a filesystem (renameio is trusted), Windows (the package documents it as non-atomic).",
 		RuleText: "Write-primitive sites are enumerated by resolved callee over all module functions; provenance by backward SSA slice with interprocedural depth 4.",
 		Assumptions: []string{
@@ -216,6 +218,8 @@ func runC14(c *Ctx) {
 	c14Typestate(c)
 	// a list whose transfer broke off must not look like a complete one to the replace step
 	parserReportsReadError(c, "C14-D5")
+	onePendingFileOneParse(c, "C14-D5")
+	c14FreshEncoding(c)
 }
 
 // osFlag returns the value of an os.O_* constant in the build being analysed
@@ -392,7 +396,7 @@ func c14Typestate(c *Ctx) {
 			}
 			var starts []core.Point
 			for e := range okEdges {
-				starts = append(starts, core.Point{Block: e.From.Succs[e.Succ], Idx: 0})
+				starts = append(starts, core.AfterEdge(e))
 			}
 			found, tr, _ := core.Reach(core.Query{From: starts, Target: core.IsReturn, Avoid: isFinalCall})
 			r.Check(!found, "C14-D4", key, pos,
@@ -405,4 +409,126 @@ func c14Typestate(c *Ctx) {
 		"finalizeUpdate calls CloseReplace or Cleanup on every path", "finalizeUpdate can return without CloseReplace or Cleanup")
 	r.Check(final[p.Fn("aghrenameio.WithDeferredCleanup")], "C14-D4", "finaliser:WithDeferredCleanup", "-",
 		"WithDeferredCleanup calls CloseReplace or Cleanup on every path", "WithDeferredCleanup can return without CloseReplace or Cleanup")
+}
+
+// onePendingFileOneParse: a pending file cannot be rewound or truncated, so
+// whatever a parse wrote into it stays there: the list parser is run at most
+// once per pending file — neither the Parse call that writes into a pending
+// file nor, when it sits in a helper, the calls leading to it lie on a cycle of
+// their function (a retry writes the second attempt after the remains of the
+// first, and the replace step then installs the mixture).  Shared by C14-D5 and
+// C15-D1.
+func onePendingFileOneParse(c *Ctx, rule string) {
+	p, r := c.P, c.R
+	n := 0
+	var bad []string
+	// where a destination value comes from: a pending file made in this function, or a parameter of it
+	classify := func(v ssa.Value) (pending bool, prm *ssa.Parameter) {
+		for _, o := range core.Origins(v, core.ProvOpts{}) { // within this function only: the call chain is walked below
+			switch {
+			case o.Kind == "call" && o.Key == "aghrenameio.NewPendingFile":
+				pending = true
+			case o.Kind == "param":
+				if pp, ok := o.Val.(*ssa.Parameter); ok {
+					prm = pp
+				}
+			}
+		}
+		return pending, prm
+	}
+	var up func(in ssa.Instruction, fn *ssa.Function, dst ssa.Value, depth int) bool
+	up = func(in ssa.Instruction, fn *ssa.Function, dst ssa.Value, depth int) (isPending bool) {
+		pending, prm := classify(dst)
+		if !pending && (prm == nil || depth > 3) {
+			return false
+		}
+		if pending {
+			if core.InCycle(in.Block()) {
+				// a loop that also creates the pending file in each iteration is a loop over lists
+				created := false
+				for _, call := range core.CallsTo(fn, "aghrenameio.NewPendingFile") {
+					if core.InCycle(call.Instr.Block()) {
+						created = true
+					}
+				}
+				if !created {
+					bad = append(bad, "the parse into the pending file can run more than once: "+p.InstrPos(in)+" is inside a loop of "+core.FuncKey(fn))
+				}
+			}
+			return true
+		}
+		// the destination is handed in: look at the call sites
+		idx := -1
+		for i, x := range fn.Params {
+			if x == prm {
+				idx = i
+			}
+		}
+		any := false
+		for _, cs := range p.StaticCallers(fn) {
+			ci := p.CallInstr(cs)
+			if ci == nil || idx < 0 || idx >= len(cs.Args) {
+				continue
+			}
+			if up(ci, ci.Parent(), cs.Args[idx], depth+1) {
+				any = true
+				if core.InCycle(in.Block()) {
+					bad = append(bad, "the parse into the pending file can run more than once: "+p.InstrPos(in)+" is inside a loop of "+core.FuncKey(fn))
+				}
+			}
+		}
+		return any
+	}
+	for _, fn := range p.ModFnsIn("filtering") {
+		for _, call := range core.CallsTo(fn, "(*filtering/rulelist.Parser).Parse") {
+			if up(call.Instr, fn, call.Arg(1), 0) {
+				n++
+			}
+		}
+	}
+	sort.Strings(bad)
+	r.Check(n > 0 && len(bad) == 0, rule, "one-pending-file-one-parse", "-",
+		"a pending file receives the output of at most one parse",
+		"a pending file can receive the output of more than one parse (a retry after an interrupted transfer): the file that replaces the list then holds the remains of the first attempt followed by the second", bad...)
+}
+
+// c14FreshEncoding: D6 — what the atomic writer publishes as the new
+// configuration is the encoding of this save alone: the bytes handed to the
+// writer come from a buffer made in this call, not from one that outlives it (a
+// buffer kept between saves still holds the document of a save that failed, and
+// the next save publishes both, one after the other).
+func c14FreshEncoding(c *Ctx) {
+	p, r := c.P, c.R
+	fn := p.Fn("(*home.configuration).write")
+	if fn == nil {
+		r.Undecided("C14-D6", "configuration.write", "-", "anchor not found")
+		return
+	}
+	n := 0
+	var bad []string
+	for _, call := range core.CallsToDeep(fn, "github.com/google/renameio/v2/maybe.WriteFile") {
+		n++
+		for _, o := range core.Origins(call.Arg(1), core.ProvOpts{Prog: p, Transparent: map[string]bool{"(*bytes.Buffer).Bytes": true, "(*bytes.Buffer).String": true}}) {
+			switch o.Kind {
+			case "alloc", "const":
+			case "call":
+				// what was written into the local buffer (the encoder's input) is not the buffer's identity
+			case "field", "global", "freevar", "param":
+				if strings.Contains(o.String(), "bytes.Buffer") || o.Kind == "global" {
+					bad = append(bad, "the written bytes come from "+o.String()+", which outlives the save")
+				}
+			}
+		}
+		// the buffer itself: the receiver of Bytes()
+		if bc, _, ok := core.CallResult(core.ResolveCellLoad(call.Arg(1))); ok && core.CalleeKey(bc.Common()) == "(*bytes.Buffer).Bytes" {
+			recv := core.ResolveCellLoad(bc.Common().Args[0])
+			if _, isAlloc := recv.(*ssa.Alloc); !isAlloc {
+				bad = append(bad, "the buffer whose contents are written is not made in this call ("+recv.String()+")")
+			}
+		}
+	}
+	sort.Strings(bad)
+	r.Check(n > 0 && len(bad) == 0, "C14-D6", "configuration-encoded-afresh-for-every-save", p.FnPos(fn),
+		"the bytes that replace the configuration file are encoded into a buffer made by this very save",
+		"the bytes that replace the configuration file come from a buffer that outlives the save: after a failed save the next one publishes the failed attempt's document followed by its own (a file that is neither version and does not load)", bad...)
 }
